@@ -218,8 +218,36 @@ def cache_key_check(repo, tier, seed):
                         used.add(n.id)
     if not miss_calls:
         ob('miss-branch', False, 'no compile_dict(parse_files(..)) call found')
+    def inj_occurs(e, p, depth=0):
+        """p reaches e through value-preserving constructors only: itself, tuple/list literals, repr()/str(), .encode(),
+        concatenation, a local variable assigned once from such an expression"""
+        if depth > 6:
+            return False
+        if isinstance(e, ast.Name):
+            if e.id == p and p not in reassigned:
+                return True
+            if e.id in read_names and e.id not in params:
+                return inj_occurs(read_names[e.id], p, depth + 1)
+            return False
+        if isinstance(e, (ast.Tuple, ast.List)):
+            return any(inj_occurs(x, p, depth + 1) for x in e.elts)
+        if isinstance(e, ast.Call) and isinstance(e.func, ast.Name) and e.func.id in ('repr', 'str') and len(e.args) == 1:
+            return inj_occurs(e.args[0], p, depth + 1)
+        if isinstance(e, ast.Call) and isinstance(e.func, ast.Attribute) and e.func.attr == 'encode':
+            return inj_occurs(e.func.value, p, depth + 1)
+        if isinstance(e, ast.BinOp) and isinstance(e.op, ast.Add):
+            return inj_occurs(e.left, p, depth + 1) or inj_occurs(e.right, p, depth + 1)
+        return False
+
+    via_files = set()
+    for hname, (fexpr, _mode) in file_handles.items():
+        via_files |= deps(fexpr)
     for p in sorted(used):
         ob('key-covers(%s)' % p, p in key_deps, 'parameter %s is used to compile but does not flow into the cache key' % p)
+        if p in key_deps and p not in via_files:
+            ob('key-injective(%s)' % p, any(inj_occurs(e, p) for e, _ in appended),
+               'parameter %s enters the cache key only through a transformation that is not value preserving '
+               '(allowed: the value itself, tuple/list, repr/str, encode, concatenation)' % p)
     # --- raw contents
     raw_ok = False
     for e, _ in appended:
@@ -280,6 +308,19 @@ def cache_key_check(repo, tier, seed):
                     ok_same = False
                     why = 'compile_files passes a transformed argument to the cached path: %s' % ast.unparse(a)[:60]
     ob('same-arguments', ok_same, why)
+    # --- what a hit returns is what the miss stored: the cache pickles the Specification; the structural-copy guarantee of
+    # pickle (assumed for plain objects) holds only while no class of the library customises pickling
+    hooks = ('__getstate__', '__setstate__', '__reduce__', '__reduce_ex__', '__getnewargs__', '__getnewargs_ex__')
+    custom = []
+    ncls = 0
+    for m2 in prog.modules.values():
+        for c2 in m2.classes.values():
+            ncls += 1
+            for h in hooks:
+                if h in c2.methods:
+                    custom.append('%s::%s.%s' % (m2.relpath, c2.name, h))
+    ob('stored-equals-returned(default pickling of %d classes)' % ncls, not custom and ncls > 50,
+       'custom pickling hooks change what a cache hit returns: %s' % ', '.join(custom))
     viol = []
     for name, ok, why in obligations:
         if not ok:
@@ -639,61 +680,152 @@ def memo_key_check(repo, tier, seed):
     from .program import Program
     prog = Program(repo)
     obs, viol, funcs, scanned = [], [], [], 0
+    setter_tables = set()       # (class name, attribute) of tables filled by  self.T[k..] = <parameter>
     for m in prog.modules.values():
+        for c in m.classes.values():
+            for f in c.methods.values():
+                ps = {a.arg for a in f.node.args.args}
+                for n in ast.walk(f.node):
+                    if isinstance(n, ast.Assign) and len(n.targets) == 1 and isinstance(n.targets[0], ast.Subscript) \
+                            and isinstance(n.value, ast.Name) and n.value.id in ps:
+                        b = n.targets[0]
+                        while isinstance(b, ast.Subscript):
+                            b = b.value
+                        if isinstance(b, ast.Attribute) and isinstance(b.value, ast.Name) and b.value.id == 'self':
+                            setter_tables.add((c.name, b.attr))
+    for m in prog.modules.values():
+        # scope: the parse / compile pipeline and the codecs (not the C / Rust source generators)
+        if m.relpath.startswith('asn1tools/source/'):
+            continue
         fl = list(m.functions.values())
         for c in m.classes.values():
             fl.extend(c.methods.values())
         for f in fl:
             scanned += 1
-            stores = []
-            for n in ast.walk(f.node):
-                if isinstance(n, ast.Assign) and len(n.targets) == 1 and isinstance(n.targets[0], ast.Subscript):
-                    keys, b = [], n.targets[0]
-                    while isinstance(b, ast.Subscript):
-                        keys.append(b.slice)
-                        b = b.value
-                    if isinstance(b, ast.Attribute) and isinstance(b.value, ast.Name) and b.value.id == 'self' \
-                            and any(isinstance(x, ast.Call) for x in ast.walk(n.value)):
-                        stores.append((b.attr, keys, n))
-            if not stores:
-                continue
-            src = ast.unparse(f.node)
+            params_all = [a_.arg for a_ in f.node.args.args]
+            local_assigned = set()
+            for a_ in ast.walk(f.node):
+                tg = []
+                if isinstance(a_, ast.Assign):
+                    tg = a_.targets
+                elif isinstance(a_, (ast.For, ast.comprehension)):
+                    tg = [a_.target]
+                elif isinstance(a_, ast.With):
+                    tg = [i_.optional_vars for i_ in a_.items if i_.optional_vars is not None]
+                for t in tg:
+                    for x in ast.walk(t):
+                        if isinstance(x, ast.Name) and isinstance(x.ctx, ast.Store):
+                            local_assigned.add(x.id)
+            local_src = {}
+            for a_ in ast.walk(f.node):
+                if isinstance(a_, ast.Assign) and len(a_.targets) == 1 and isinstance(a_.targets[0], ast.Name):
+                    local_src.setdefault(a_.targets[0].id, []).append(a_.value)
+
+            def param_deps(e, seen=()):
+                out = set()
+                for x in ast.walk(e):
+                    if isinstance(x, ast.Name):
+                        if x.id in params_all:
+                            out.add(x.id)
+                        elif x.id in local_src and x.id not in seen:
+                            for v in local_src[x.id]:
+                                out |= param_deps(v, seen + (x.id,))
+                return out
+
+            def key_params(e, seen=()):
+                """parameters that enter a key expression value-preservingly (itself, tuple/list, a local bound to such)"""
+                if isinstance(e, ast.Name):
+                    if e.id in params_all:
+                        return {e.id}
+                    if e.id in local_src and e.id not in seen and len(local_src[e.id]) == 1:
+                        return key_params(local_src[e.id][0], seen + (e.id,))
+                    return set()
+                if isinstance(e, (ast.Tuple, ast.List)):
+                    out = set()
+                    for x in e.elts:
+                        out |= key_params(x, seen)
+                    return out
+                return set()
+
             nf = 0
-            for attr, keys, st in stores:
-                pat = 'self.%s' % attr
+            for n in ast.walk(f.node):
+                if not (isinstance(n, ast.Assign) and len(n.targets) == 1 and isinstance(n.targets[0], ast.Subscript)):
+                    continue
+                keys, b = [], n.targets[0]
+                while isinstance(b, ast.Subscript):
+                    keys.append(b.slice)
+                    b = b.value
+                root = b
+                while isinstance(root, ast.Attribute):
+                    root = root.value
+                if not isinstance(root, ast.Name) or (root.id in local_assigned) or (root.id in params_all and root.id != 'self'):
+                    continue            # a local container or a caller's object: not a table that outlives the call
+                if isinstance(b, ast.Name) and b.id == 'self':
+                    continue
+                table = ast.unparse(b)
+                # the stored value is computed here (contains a call, directly or through locals)
+                val = n.value
+                computed = any(isinstance(x, ast.Call) for x in ast.walk(val)) or \
+                    (isinstance(val, ast.Name) and val.id in local_src and any(
+                        any(isinstance(x, ast.Call) for x in ast.walk(v)) for v in local_src[val.id]))
+                if not computed:
+                    continue
                 # memo pattern: the same table is tested / read elsewhere in the function
                 reads = [x for x in ast.walk(f.node) if isinstance(x, ast.Compare) and any(isinstance(o, (ast.In, ast.NotIn)) for o in x.ops)
-                         and any(ast.unparse(c_).startswith(pat) for c_ in x.comparators)]
+                         and any(ast.unparse(c_) == table or ast.unparse(c_).startswith(table + '[') for c_ in x.comparators)]
                 reads += [x for x in ast.walk(f.node) if isinstance(x, ast.Subscript) and isinstance(x.ctx, ast.Load)
-                          and ast.unparse(x).startswith(pat + '[')]
+                          and ast.unparse(x).startswith(table + '[')]
                 if not reads:
                     continue
-                keyvars = {x.id for k in keys for x in ast.walk(k) if isinstance(x, ast.Name)}
-                covered = set(keyvars) | {'self'}
-                assigns = [a for a in ast.walk(f.node) if isinstance(a, ast.Assign) and a is not st]
-                for _ in range(6):
-                    for a in assigns:
-                        tn = [t.id for t in a.targets if isinstance(t, ast.Name)]
-                        if tn and all(x.id in covered or hasattr(builtins, x.id) or x.id in m.functions or x.id in m.classes
-                                      for x in ast.walk(a.value) if isinstance(x, ast.Name)):
-                            # every assignment to that name must be covered
-                            for t in tn:
-                                if all(all(x.id in covered or hasattr(builtins, x.id) for x in ast.walk(a2.value) if isinstance(x, ast.Name))
-                                       for a2 in assigns if any(isinstance(t2, ast.Name) and t2.id == t for t2 in a2.targets)):
-                                    covered.add(t)
-                deps = {x.id for x in ast.walk(st.value) if isinstance(x, ast.Name)}
-                deps = {d for d in deps if not hasattr(builtins, d) and d not in m.functions and d not in m.classes
-                        and d not in getattr(m, 'imports', {})}
-                missing = sorted(deps - covered)
-                name = '%s/memo-key-covers-inputs(self.%s)@%d' % (f.ident, attr, st.lineno)
+                kp = set()
+                for k in keys:
+                    kp |= key_params(k)
+                deps = param_deps(val) - {'self'}
+                missing = sorted(deps - kp)
+                name = '%s/memo-key-covers-inputs(%s)@%d' % (f.ident, table, n.lineno)
                 ok = not missing
                 obs.append((name, ok))
                 nf += 1
                 if not ok:
                     viol.append({'obligation': name, 'function': f.ident, 'verdict': 'data-flow obligation failed',
-                                 'solver_output': 'line %d: `%s` memoises a result that depends on %s under a key built from %s only'
-                                                  % (st.lineno, ast.unparse(st)[:100], missing, sorted(keyvars)),
+                                 'solver_output': 'line %d: `%s` memoises a result that depends on parameter(s) %s, but the key is built from %s only'
+                                                  % (n.lineno, ast.unparse(n)[:100], missing, sorted(kp) or 'derived values'),
                                  'inputs': None})
+            # setter / getter of a keyed table: every parameter is part of the key
+            #   def set_x(self, a, b, v): self.T[a][b] = v          def get_x(self, a, b): return self.T[a][b]
+            params_ = [a.arg for a in f.node.args.args if a.arg != 'self']
+            for n in ast.walk(f.node):
+                tgt = None
+                val = None
+                if isinstance(n, ast.Assign) and len(n.targets) == 1 and isinstance(n.targets[0], ast.Subscript) \
+                        and isinstance(n.value, ast.Name) and n.value.id in params_:
+                    tgt, val = n.targets[0], n.value.id
+                elif isinstance(n, ast.Return) and isinstance(n.value, ast.Subscript):
+                    tgt = n.value
+                if tgt is None:
+                    continue
+                keys, b = [], tgt
+                while isinstance(b, ast.Subscript):
+                    keys.append(b.slice)
+                    b = b.value
+                if not (isinstance(b, ast.Attribute) and isinstance(b.value, ast.Name) and b.value.id == 'self'):
+                    continue
+                if not keys or not all(isinstance(k, (ast.Name, ast.Tuple)) for k in keys):
+                    continue
+                keyvars = {x.id for k in keys for x in ast.walk(k) if isinstance(x, ast.Name)}
+                if not keyvars or not keyvars <= set(params_):
+                    continue
+                if (f.cls.name if getattr(f, 'cls', None) is not None else None, b.attr) not in setter_tables:
+                    continue            # only tables that are filled by a keyed setter (memo tables), not static maps
+                missing = sorted(set(params_) - keyvars - ({val} if val else set()))
+                name = '%s/table-key-uses-all-parameters(self.%s)@%d' % (f.ident, b.attr, n.lineno)
+                ok = not missing
+                obs.append((name, ok))
+                nf += 1
+                if not ok:
+                    viol.append({'obligation': name, 'function': f.ident, 'verdict': 'data-flow obligation failed',
+                                 'solver_output': 'line %d: `%s` keys self.%s by %s but ignores the parameter(s) %s' % (
+                                     n.lineno, ast.unparse(n)[:90], b.attr, sorted(keyvars), missing), 'inputs': None})
             if nf:
                 funcs.append({'function': f.ident, 'source_sha256': f.sha, 'paths': 1, 'obligations': nf,
                               'discharged': sum(1 for o in obs[-nf:] if o[1]), 'outcomes': {}, 'seconds': 0.0, 'inlined_callees': []})
@@ -701,3 +833,113 @@ def memo_key_check(repo, tier, seed):
             'violations': viol, 'functions': funcs,
             'undecided': [] if scanned >= 100 else [{'function': 'asn1tools', 'kind': 'vacuous', 'reason': 'fewer than 100 functions scanned'}],
             'coverage': {'obligations': [o[0] for o in obs], 'functions_scanned': scanned}}
+
+
+def preprocess_idempotence_check(repo, tier, seed):
+    """C13 / C19 (data-flow obligations on codecs/compiler.py::Compiler.pre_process_*):
+      guarded-rewrite      a pass that overwrites a field of the *input dictionary* with a value computed from that same
+                           field (X[k] = f(.. X[k] ..)) does so only under a test of the old value (or after an early
+                           "already processed" return), so that running the pass again leaves the converted value alone
+                           -- the compile of an already compiled dictionary sees the same dictionary (C13)
+      decide-on-resolved   where a pass resolves a member through type references (R = self.resolve_type_descriptor(M, ..)),
+                           every decision on the kind of type compares R['type'], never M['type'], so the result does not
+                           depend on whether the type is written inline or through a reference (C19)"""
+    import ast
+    from .program import Program
+    prog = Program(repo)
+    m = prog.module_by_relpath('asn1tools/codecs/compiler.py')
+    cls = m.classes['Compiler']
+    obs, viol, funcs = [], [], []
+    BUILTIN_TYPES = {'BIT STRING', 'OCTET STRING', 'ENUMERATED', 'INTEGER', 'SEQUENCE', 'SET', 'CHOICE', 'SEQUENCE OF', 'SET OF',
+                     'BOOLEAN', 'REAL', 'NULL', 'OBJECT IDENTIFIER'}
+    for f in cls.methods.values():
+        if not f.name.startswith('pre_process'):
+            continue
+        nf = 0
+        parents = {}
+        for n in ast.walk(f.node):
+            for ch in ast.iter_child_nodes(n):
+                parents[ch] = n
+        # aliases: v = X[k]
+        alias = {}
+        for n in ast.walk(f.node):
+            if isinstance(n, ast.Assign) and len(n.targets) == 1 and isinstance(n.targets[0], ast.Name) \
+                    and isinstance(n.value, ast.Subscript):
+                alias[n.targets[0].id] = ast.unparse(n.value)
+        early_returns = []      # tests of `if T: return` at function level
+        for st in f.node.body:
+            if isinstance(st, ast.If) and any(isinstance(x, ast.Return) for x in st.body):
+                early_returns.append(st.test)
+        for n in ast.walk(f.node):
+            if not (isinstance(n, ast.Assign) and len(n.targets) == 1 and isinstance(n.targets[0], ast.Subscript)):
+                continue
+            tgt = ast.unparse(n.targets[0])
+            base = n.targets[0].value
+            if not isinstance(base, ast.Name) or base.id == 'self':
+                continue
+            reads_self = any(isinstance(x, ast.Subscript) and ast.unparse(x) == tgt for x in ast.walk(n.value)) or \
+                any(isinstance(x, ast.Name) and alias.get(x.id) == tgt for x in ast.walk(n.value))
+            if not reads_self:
+                continue
+            # a rewrite that merely stores what another pre_process_* pass returned is that pass's responsibility
+            # (structural passes consume their own markers: COMPONENTS OF entries, parameterized templates)
+            def delegated(e):
+                if isinstance(e, ast.Call) and isinstance(e.func, ast.Attribute) and isinstance(e.func.value, ast.Name) \
+                        and e.func.value.id == 'self' and e.func.attr.startswith('pre_process'):
+                    return True
+                if isinstance(e, ast.Name):
+                    srcs = [a.value for a in ast.walk(f.node) if isinstance(a, ast.Assign) and len(a.targets) == 1
+                            and isinstance(a.targets[0], ast.Name) and a.targets[0].id == e.id]
+                    return any(delegated(x) for x in srcs if not isinstance(x, ast.Name))
+                return False
+            if delegated(n.value):
+                continue
+            # control dependence: some enclosing if/loop-if test (or an early return) mentions the old value
+            guarded = False
+            p = parents.get(n)
+            while p is not None and p is not f.node:
+                if isinstance(p, ast.If):
+                    t = p.test
+                    if any((isinstance(x, ast.Subscript) and ast.unparse(x) == tgt) or
+                           (isinstance(x, ast.Name) and alias.get(x.id) == tgt) for x in ast.walk(t)):
+                        guarded = True
+                p = parents.get(p)
+            for t in early_returns:
+                if any((isinstance(x, ast.Subscript) and ast.unparse(x) == tgt) or
+                       (isinstance(x, ast.Name) and alias.get(x.id) == tgt) for x in ast.walk(t)):
+                    guarded = True
+            name = '%s/guarded-rewrite(%s)@%d' % (f.ident, tgt, n.lineno)
+            obs.append((name, guarded))
+            nf += 1
+            if not guarded:
+                viol.append({'obligation': name, 'function': f.ident, 'verdict': 'data-flow obligation failed',
+                             'solver_output': 'line %d: `%s` rewrites %s from its own old value without testing the old value: a second '
+                                              'pass over the same dictionary converts again' % (n.lineno, ast.unparse(n)[:90], tgt),
+                             'inputs': None})
+        # decide-on-resolved
+        res = [(n.targets[0].id, n.value.args[0].id) for n in ast.walk(f.node)
+               if isinstance(n, ast.Assign) and isinstance(n.targets[0], ast.Name) and isinstance(n.value, ast.Call)
+               and isinstance(n.value.func, ast.Attribute) and n.value.func.attr == 'resolve_type_descriptor'
+               and n.value.args and isinstance(n.value.args[0], ast.Name)]
+        for rname, mname in res:
+            for c in ast.walk(f.node):
+                if isinstance(c, ast.Compare) and isinstance(c.left, ast.Subscript) and isinstance(c.left.value, ast.Name) \
+                        and isinstance(c.left.slice, ast.Constant) and c.left.slice.value == 'type' \
+                        and any(isinstance(k, ast.Constant) and k.value in BUILTIN_TYPES for k in c.comparators) \
+                        and c.left.value.id in (rname, mname):
+                    ok = c.left.value.id == rname
+                    name = '%s/decide-on-resolved@%d' % (f.ident, c.lineno)
+                    obs.append((name, ok))
+                    nf += 1
+                    if not ok:
+                        viol.append({'obligation': name, 'function': f.ident, 'verdict': 'data-flow obligation failed',
+                                     'solver_output': "line %d: `%s` decides on the member as written (%s['type']) although the "
+                                                      "member was resolved through its type references into `%s`" % (
+                                                          c.lineno, ast.unparse(c)[:80], mname, rname), 'inputs': None})
+        if nf:
+            funcs.append({'function': f.ident, 'source_sha256': f.sha, 'paths': 1, 'obligations': nf,
+                          'discharged': sum(1 for o in obs[-nf:] if o[1]), 'outcomes': {}, 'seconds': 0.0, 'inlined_callees': []})
+    return {'name': 'pre_process idempotence / resolved decisions', 'obligations': len(obs), 'discharged': sum(1 for o in obs if o[1]),
+            'violations': viol, 'functions': funcs,
+            'undecided': [] if len(obs) >= 3 else [{'function': 'Compiler.pre_process_*', 'kind': 'vacuous', 'reason': 'fewer than 3 obligations'}],
+            'coverage': {'obligations': [o[0] for o in obs]}}
